@@ -6,7 +6,11 @@ id=$1; shift; checks="$@"
 S=/verif/seeded/$id
 W=/tmp/ver_$id
 git -C /repo worktree remove --force $W 2>/dev/null
-git -C /repo worktree add -q --detach $W HEAD || exit 2
+# a seed is confirmed on the tree it was written for: /repo HEAD if the patch still applies there, otherwise the commit named
+# in SEED_BASE (seeds of waves 1-4 were written against 73b5d21, before the fixes D12/D13 changed the code some of them edit)
+BASE=HEAD
+git -C /repo apply --check $S/patch.diff 2>/dev/null || BASE=${SEED_BASE:-73b5d21}
+git -C /repo worktree add -q --detach $W $BASE || exit 2
 mkdir -p $W/SEED && cp -r $S/* $W/SEED/ 2>/dev/null
 demo=$(ls $W/SEED/demo.* | head -1)
 run_demo() { (cd $W && case "$demo" in *.py) PYTHONPATH=$W/py MPLBACKEND=Agg PYTHONDONTWRITEBYTECODE=1 /venv/bin/python SEED/$(basename $demo);; *) bash SEED/$(basename $demo);; esac) >/tmp/ver_$id.demo.log 2>&1; echo $?; }
@@ -17,7 +21,17 @@ base=$(FORMAK_REPO=$W /verif/tools/baseline.py 2>&1 | head -1)
 git -C /repo worktree remove --force $W
 echo "$id: demo unpatched rc=$d0, patched rc=$d1; $base"
 res=""
-if [ -n "$checks" ]; then
+if [ -n "$checks" ] && [ "$BASE" != HEAD ]; then
+  # the patch no longer applies to /repo HEAD: run the checks against a scratch worktree of the seed's base commit instead
+  git -C /repo worktree add -q --detach $W $BASE && (cd $W && git apply $S/patch.diff) || exit 2
+  for c in $checks; do
+    out=$(FORMAK_REPO=$W VERIF_EVIDENCE_DIR=/tmp/ver_evidence /verif/check $c --tier ${TIER:-quick} 2>&1); rc=$?
+    first=$(echo "$out" | grep -m1 '^  key=' | cut -c1-220)
+    echo "   $c rc=$rc $(echo "$out" | grep -c '^VIOLATION') violations [tree $BASE] :: $first"
+    res="$res $c:$rc"
+  done
+  git -C /repo worktree remove --force $W
+elif [ -n "$checks" ]; then
   git -C /repo apply $S/patch.diff || exit 2
   for c in $checks; do
     out=$(VERIF_EVIDENCE_DIR=/tmp/ver_evidence /verif/check $c --tier ${TIER:-quick} 2>&1); rc=$?
@@ -28,4 +42,4 @@ if [ -n "$checks" ]; then
   git -C /repo checkout -- . 
   git -C /repo status --short | grep -v '^??' | head -3
 fi
-echo "$id RESULT demo=$d0/$d1 baseline='$base' checks=$res"
+echo "$id RESULT demo=$d0/$d1 baseline='$base' checks=$res tree=$BASE"
